@@ -143,9 +143,14 @@ inductive FileContent where
   | valid (r : HookResp)
   deriving DecidableEq, Repr
 
+/-- what one run of the hook leaves behind. `othersOk` = the hook's other output files — metric
+operations (`$METRICS_PATH`) and object patch operations (`$KUBERNETES_PATCH_PATH`) — were read
+(`Hook.Run`) and applied (`handleRunHook`: `ParseOperations`/`ExecuteOperations`, `SendBatch`)
+without an error -/
 structure Outcome where
   exitZero : Bool
   file : FileContent
+  othersOk : Bool
   deriving DecidableEq, Repr
 
 /-- failure texts by origin -/
@@ -185,6 +190,20 @@ inductive EventRet where
   | resp (r : HookResp)
   deriving DecidableEq, Repr
 
+/-- `taskHandler` → `handleRunHook`: the task ends with status `Fail` when `Hook.Run` returns an
+error (non-zero exit, a metrics / response file that cannot be read) or when the object patch
+operations or the metric operations cannot be applied afterwards -/
+def taskFails (o : Outcome) : Bool :=
+  !o.exitZero || o.file == .malformed || !o.othersOk
+
+/-- the `admissionResponse` task prop: set as the very last step of `handleRunHook`, i.e. only when
+nothing before it returned an error, and only when the response file was not empty -/
+def taskProp (o : Outcome) : Option HookResp :=
+  if taskFails o then none
+  else match o.file with
+    | .valid r => some r
+    | _ => none
+
 /-- the closure of `initValidatingWebhookManager`. `run hook binding` = what running that hook for
 that binding leaves behind. Returns who was run as well. -/
 def eventHandler (hooks : List Hook) (run : Nat → Binding → Outcome) (conf wid : Str) :
@@ -193,12 +212,11 @@ def eventHandler (hooks : List Hook) (run : Nat → Binding → Outcome) (conf w
   | none => (.err .noHook, none)
   | some (h, b) =>
     let o := run h b
-    -- taskHandler: a non-zero exit or an unreadable response file make the task `Fail`
-    if !o.exitZero then (.hookFailed, some (h, b))
-    else match o.file with
-      | .malformed => (.hookFailed, some (h, b))
-      | .empty => (.err .propError, some (h, b))     -- no `admissionResponse` prop
-      | .valid r => (.resp r, some (h, b))
+    -- `res.Status == "Fail"` is looked at first, the task prop only afterwards
+    if taskFails o then (.hookFailed, some (h, b))
+    else match taskProp o with
+      | none => (.err .propError, some (h, b))     -- no `admissionResponse` prop
+      | some r => (.resp r, some (h, b))
 
 /-- `handleReviewRequest` + `errored` + the uid line of `serveReviewRequest` -/
 def buildReview (uid : String) : EventRet → Review
@@ -216,6 +234,62 @@ def respond (hooks : List Hook) (run : Nat → Binding → Outcome) (path : Str)
   | .ok uid =>
     let r := eventHandler hooks run (detect path).1 (detect path).2
     (.review (buildReview uid r.1), r.2)
+
+/-! ## the response files of overlapping hook runs
+
+Admission requests are served concurrently by the HTTP server and every request runs its hook
+synchronously (`op.taskHandler` inside the event closure, no queue): runs of ONE hook overlap. Each
+run gets its response file from `prepareAdmissionResponseFile`, all in one temp directory. -/
+
+/-- the steps of one hook run that touch its admission response file -/
+inductive FileEv where
+  | prepare (run : Nat)                     -- `prepareAdmissionResponseFile`: (re)create the file, empty
+  | write (run : Nat) (c : FileContent)     -- the hook process writes `$VALIDATING_RESPONSE_PATH`
+  | finish (run : Nat)                      -- `ResponseFromFile`, then the deferred `os.Remove`
+  deriving DecidableEq, Repr
+
+def FileEv.run : FileEv → Nat
+  | .prepare r => r
+  | .write r _ => r
+  | .finish r => r
+
+/-- the temp directory and what every run's `ResponseFromFile` found (`none` = no such file) -/
+structure FileSt where
+  files : Nat → Option FileContent          -- file name → content
+  seen : Nat → List (Option FileContent)    -- run → what it read, per `finish`
+
+def FileSt.init : FileSt := ⟨fun _ => none, fun _ => []⟩
+
+/-- one step; `name run` = the file name `prepareAdmissionResponseFile` chose for that run -/
+def fileStep (name : Nat → Nat) (s : FileSt) : FileEv → FileSt
+  | .prepare r => { s with files := fun n => if n = name r then some .empty else s.files n }
+  | .write r c => { s with files := fun n => if n = name r then some c else s.files n }
+  | .finish r =>
+    { files := fun n => if n = name r then none else s.files n,
+      seen := fun q => if q = r then s.seen r ++ [s.files (name r)] else s.seen q }
+
+def fileExec (name : Nat → Nat) (t : List FileEv) : FileSt := t.foldl (fileStep name) .init
+
+/-- `strings.Contains` -/
+def hasInfix (p : Str) : Str → Bool
+  | [] => p.isEmpty
+  | c :: cs => p.isPrefixOf (c :: cs) || hasInfix p cs
+
+/-- is there a per-run part (a fresh uuid) among the arguments of the file name's format string?
+Regenerated from `prepareAdmissionResponseFile` on every run. -/
+def perRunResponseFile : Bool :=
+  ShellOp.Facts.c14ResponseFileArgs.any (fun a => hasInfix "uuid.NewV4()".toList a.toList)
+
+/-- the file name as a number: hook name and uuid when the name has a per-run part, the hook name
+alone otherwise (`hookOf run` = the hook the run belongs to) -/
+def responseFileName (perRun : Bool) (hookOf : Nat → Nat) (run : Nat) : Nat :=
+  if perRun then 2 * run + 1 else 2 * hookOf run
+
+/-- what a run found, as the response-file part of its `Outcome`: a file that is gone makes
+`ResponseFromFile` return an error, like a malformed one -/
+def seenFile : Option FileContent → FileContent
+  | some c => c
+  | none => .malformed
 
 /-! ## the specification, on one observed exchange -/
 
@@ -251,7 +325,7 @@ def checkObs (hooks : List Hook) (run : Nat → Binding → Outcome) (path : Str
       | none => if r.allowed then some "allowed-although-no-hook-ran" else none
       | some (h, b) =>
         let o := run h b
-        match o.exitZero, o.file with
+        match o.exitZero && o.othersOk, o.file with
         | true, .valid rr =>
           if r.allowed ≠ rr.allowed then some "the-hook's-verdict-is-not-relayed"
           else if r.warnings ≠ rr.warnings then some "the-hook's-warnings-are-not-relayed"
